@@ -128,6 +128,7 @@ class Repo:
         self.modules: Dict[str, Module] = {}
         self.classes: Dict[str, ClassInfo] = {}
         self.functions: Dict[str, FunctionInfo] = {}
+        self.fingerprints: Dict[str, List[str]] = {}
         self._load()
 
     # -- loading -----------------------------------------------------------
@@ -147,6 +148,7 @@ class Repo:
             except SyntaxError as e:  # the tree under analysis must parse
                 raise Unsupported(f'{rel}: does not parse: {e}') from e
             from .inline import expand_keyword_dicts, inline_local_procedures, inline_unknown_functions, inline_unknown_nested
+            self.fingerprints.update(fingerprints_of(tree, name))          # of the source as written, before any reading-in-place
             inline_local_procedures(tree)
             inline_unknown_nested(tree)
             expand_keyword_dicts(tree)
@@ -163,6 +165,101 @@ class Repo:
             )
             self.modules[name] = mod
             self._index(mod, mod.tree.body, prefix=name, cls=None, parent=None)
+
+    REWRITTEN_AT = 8        # statements of a function that the reference tree does not have ...
+    REWRITTEN_FRAC = 0.0    # ... and the share of the reference version's statements that number has to reach
+
+    def rewritten(self, construct: str) -> Optional[str]:
+        """Has the function `construct` names (or lies in) been rewritten since the reference tree?  Returns the reason, or None.
+        Rewritten = it does not exist there, or it has REWRITTEN_AT or more statements the reference version lacks, or it calls
+        a function / method of the package that does not exist there (work moved into a new helper).  One level of callees is
+        looked at as well: a rule anchored on `solve` that reads `iter_periods` is reading rewritten code if `iter_periods` is."""
+        base = baseline()
+        if not base:
+            return None
+        cache = self.__dict__.setdefault('_rewritten', {})
+        if construct in cache:
+            return cache[construct]
+        q = construct
+        while q and q not in self.fingerprints:
+            q = q.rpartition('.')[0]
+        reason = None
+        if q:
+            reason = self._rewritten_own(q, base)
+            if reason is None:
+                # callees by bare or self-qualified name, one level
+                fi = self.functions.get(q)
+                names = set()
+                if fi is not None:
+                    for x in ast.walk(fi.node):
+                        if isinstance(x, ast.Call):
+                            if isinstance(x.func, ast.Name):
+                                names.add(x.func.id)
+                            elif isinstance(x.func, ast.Attribute):
+                                names.add(x.func.attr)
+                for cq in self.fingerprints:
+                    if cq.rsplit('.', 1)[-1] in names and cq != q and not cq.startswith(q + '.<locals>'):
+                        r2 = self._rewritten_own(cq, base)
+                        if r2 is not None and cq.rsplit('.', 1)[-1] not in ('__init__',):
+                            # only callees that are (or were) real helpers of this code: same module or same class family
+                            if cq.split('.')[:-1][:3] == q.split('.')[:-1][:3] or cq not in base:
+                                reason = f'its callee {cq.rsplit(".", 2)[-2] + "." + cq.rsplit(".", 1)[-1] if cq.count(".") > 2 else cq}: {r2}'
+                                break
+        cache[construct] = reason
+        return reason
+
+    def new_statement(self, qualname: str, lineno: int) -> bool:
+        """Is the statement of `qualname` at `lineno` one the reference tree does not have (in that function)?  False when there
+        is no reference tree or the statement cannot be found."""
+        base = baseline()
+        if not base:
+            return False
+        if qualname not in base:
+            return qualname in self.fingerprints
+        fi = self.functions.get(qualname)
+        if fi is None:
+            return False
+        best = None
+        for n in iter_own_nodes(fi.node):
+            if isinstance(n, ast.stmt) and getattr(n, 'lineno', None) is not None and n.lineno <= lineno <= (getattr(n, 'end_lineno', None) or n.lineno):
+                hdr_end = n.lineno
+                if isinstance(n, (ast.If, ast.While)):
+                    hdr_end = getattr(n.test, 'end_lineno', n.lineno)
+                elif isinstance(n, ast.For):
+                    hdr_end = getattr(n.iter, 'end_lineno', n.lineno)
+                elif isinstance(n, (ast.Try, ast.With, ast.FunctionDef, ast.AsyncFunctionDef, ast.ClassDef)):
+                    hdr_end = n.lineno if not isinstance(n, ast.With) else max(getattr(i.context_expr, 'end_lineno', n.lineno) for i in n.items)
+                else:
+                    hdr_end = getattr(n, 'end_lineno', None) or n.lineno
+                if lineno <= hdr_end and (best is None or n.lineno >= best.lineno):
+                    best = n
+        if best is None:
+            return False
+        return stmt_key(best) not in base[qualname]
+
+    def _rewritten_own(self, q: str, base) -> Optional[str]:
+        from collections import Counter
+        cur = self.fingerprints.get(q)
+        if cur is None:
+            return None
+        if q not in base:
+            return 'it does not exist in the reference tree (a new function)'
+        added = Counter(cur) - Counter(base[q])
+        n = sum(added.values())
+        import math, os
+        at = int(os.environ.get('FSA_REWRITTEN_AT', self.REWRITTEN_AT))
+        frac = float(os.environ.get('FSA_REWRITTEN_FRAC', self.REWRITTEN_FRAC))
+        if n >= max(at, math.ceil(frac * len(base[q]))):
+            return f'{n} of its {len(cur)} statements are not in the reference tree'
+        # calls of package functions that the reference tree does not have
+        fi = self.functions.get(q)
+        mine = {k.rsplit('.', 1)[-1] for k in self.fingerprints if k not in base}
+        if fi is not None and mine:
+            for st in added:
+                for nm in mine:
+                    if nm + '(' in st:
+                        return f'it now calls `{nm}()`, which the reference tree does not have'
+        return None
 
     def _index(self, mod, body, prefix, cls, parent) -> None:
         for stmt in body:
@@ -339,6 +436,55 @@ def text(node: Optional[ast.AST]) -> str:
         return ast.unparse(node)
     except Exception:  # pragma: no cover
         return ast.dump(node)
+
+
+def fingerprints_of(tree: ast.Module, modname: str) -> Dict[str, List[str]]:
+    """{qualified function name: normalised texts of its own statements (docstrings aside, nested definitions as `def name`)}."""
+    out: Dict[str, List[str]] = {}
+
+    def visit(body, prefix):
+        for n in body:
+            if isinstance(n, (ast.FunctionDef, ast.AsyncFunctionDef)):
+                q = f'{prefix}.{n.name}'
+                keys = []
+                stack = list(n.body)
+                while stack:
+                    x = stack.pop()
+                    if isinstance(x, ast.Expr) and isinstance(x.value, ast.Constant) and isinstance(x.value.value, str):
+                        continue
+                    if isinstance(x, ast.stmt):
+                        keys.append(stmt_key(x))
+                    if isinstance(x, (ast.FunctionDef, ast.AsyncFunctionDef, ast.ClassDef)):
+                        continue
+                    for fld in ('body', 'orelse', 'finalbody'):
+                        blk = getattr(x, fld, None)
+                        if isinstance(blk, list):
+                            stack.extend(b for b in blk if isinstance(b, ast.stmt))
+                    if isinstance(x, ast.Try):
+                        for h in x.handlers:
+                            stack.extend(h.body)
+                out[q] = sorted(keys)
+                visit(n.body, q + '.<locals>')
+            elif isinstance(n, ast.ClassDef):
+                visit(n.body, f'{prefix}.{n.name}')
+
+    visit(tree.body, modname)
+    return out
+
+
+_BASELINE = None
+
+
+def baseline() -> Dict[str, List[str]]:
+    """Fingerprints of the tree the rules were last confirmed on (fsa/baseline.json, regenerated by tools/freeze_baseline.py
+    after every change to /repo that is accepted as the new reference).  Used for one thing only: to tell a function that
+    is as it was, give or take an edit, from one that has been rewritten (see Repo.rewritten)."""
+    global _BASELINE
+    if _BASELINE is None:
+        import json
+        p = Path(__file__).resolve().parent / 'baseline.json'
+        _BASELINE = json.loads(p.read_text()) if p.exists() else {}
+    return _BASELINE
 
 
 def stmt_key(node: ast.AST) -> str:
